@@ -814,3 +814,14 @@ def run(idx, rep, tier):
               'connect() to a server that rejects every agent key hangs '
               'instead of raising PermissionDenied', _cl.loc(_cl.node),
               _g.describe_path(_w) if _w else None)
+    # C09.R10: shared rule
+    from .c10 import r2 as _c10r2
+    rep.rule('C09.R10', 'loops that wait for a peer make progress or fail (= C10.R2 progress rules): the remote-to-remote SCP block loop treats an empty read as a lost source and raises, it does not go round again with the offset unchanged')
+    _before = len(rep.obligations)
+    _c10r2(k, tier)
+    _kept = [o for o in rep.obligations[_before:] if 'scp' in o.key.lower()]
+    del rep.obligations[_before:]
+    rep.obligations.extend(_kept)
+    rep.floor('C09.R10', 'shared rows', len(_kept), 1)
+    for o in rep.obligations[_before:]:
+        o.rule = 'C09.R10'
